@@ -138,6 +138,18 @@ Proof.
     eapply MInv_update; [exact Hm|exact Et|reflexivity|reflexivity|left; reflexivity].
   - constructor; simpl; intros; discriminate.
   - constructor; simpl; intros; discriminate.
+  - destruct (mget t (s_thr s)) as [[h ts]|] eqn:Et; [|exact Hm]. destruct ts; try exact Hm.
+    destruct (buffered s (hr h)); [exact Hm|].
+    eapply MInv_update; [exact Hm|exact Et|reflexivity|reflexivity|right; reflexivity].
+  - destruct (mget t (s_thr s)) as [[h ts]|] eqn:Et; [|exact Hm]. destruct ts; try exact Hm.
+    destruct (ds_put_fail_fields cf s (hr h) res o) as [_ [F2 [_ [F4 _]]]].
+    eapply MInv_update; [exact Hm|exact Et|rewrite sess_set_thr; exact F4|rewrite thr_set_thr, F2; reflexivity|right; reflexivity].
+  - destruct (mget t (s_thr s)) as [[h ts]|] eqn:Et; [|exact Hm]. destruct ts; try exact Hm.
+    unfold step_resp_fail. destruct (rs_slots r); [|destruct (Nat.ltb _ _)].
+    + eapply MInv_update; [exact Hm|exact Et|reflexivity|reflexivity|right; reflexivity].
+    + eapply MInv_update; [exact Hm|exact Et|reflexivity|reflexivity|right; reflexivity].
+    + match goal with |- MInv (set_thr (ds_put_fail ?cf ?s0 ?k ?v ?o) _ _) => destruct (ds_put_fail_fields cf s0 k v o) as [_ [F2 [_ [F4 _]]]] end.
+      eapply MInv_update; [exact Hm|exact Et|rewrite sess_set_thr; exact F4|rewrite thr_set_thr, F2; reflexivity|right; reflexivity].
 Qed.
 
 Lemma MInv_run cf es : forall s, MInv s -> MInv (frun cf s es).
@@ -151,9 +163,10 @@ Theorem session_mutex cf count es t1 t2 h1 h2 ts1 ts2 :
   inside ts1 -> inside ts2 -> hh h1 = hh h2 -> t1 = t2.
 Proof. intros s. eapply (m_excl s). apply MInv_run, MInv_init. Qed.
 
-(** * Stability of the pending coordinates (repaired code: draw persisted before the first request, every write flushed) *)
+(** * Stability of the pending coordinates (repaired code: draw persisted before the first request, every write flushed,
+      a failed write dropped from the write buffer) *)
 
-Definition repaired (cf : cfg) : Prop := c_persist_draw cf = true /\ c_flush cf = true.
+Definition repaired (cf : cfg) : Prop := c_persist_draw cf = true /\ c_flush cf = true /\ c_drop cf = true.
 
 (** headers form a chain: square width and height are functions of the data root *)
 Definition ev_chain (wf : N -> Z) (hf : N -> N) (e : fev) : Prop :=
@@ -195,20 +208,17 @@ Proof.
 Qed.
 
 (** a call inside its session writes the result of its root: nobody else looks at that root *)
-Lemma PInv_write hf cf s s0 t h ts ts' v :
-  repaired cf -> PInv hf s -> mget t (s_thr s) = Some (h, ts) -> inside ts ->
-  s_disk s0 = s_disk s -> s_buf s0 = s_buf s -> s_thr s0 = s_thr s -> s_sess s0 = s_sess s ->
-  MInv (set_thr (ds_put cf s0 (hr h) v) t (h, ts')) ->
+Lemma PInv_write_gen hf s s1 t h ts ts' v :
+  PInv hf s -> mget t (s_thr s) = Some (h, ts) -> inside ts ->
+  (forall k, view s1 k = if N.eqb k (hr h) then Some v else view s k) -> s_buf s1 = [] -> s_thr s1 = s_thr s ->
+  MInv (set_thr s1 t (h, ts')) ->
   match ts' with TReq _ res => res = v | TStore _ _ => False | _ => True end ->
-  PInv hf (set_thr (ds_put cf s0 (hr h) v) t (h, ts')).
+  PInv hf (set_thr s1 t (h, ts')).
 Proof.
-  intros [Rp Rf] [Pm Pb Pt] Ht Hin Ed Eb Eth Es Hm Hts.
-  assert (Ev : forall k, view (set_thr (ds_put cf s0 (hr h) v) t (h, ts')) k = if N.eqb k (hr h) then Some v else view s k).
-  { intros k. change (view (ds_put cf s0 (hr h) v) k = if N.eqb k (hr h) then Some v else view s k).
-    rewrite view_ds_put. unfold view. rewrite Ed, Eb. reflexivity. }
-  destruct (ds_put_fields cf s0 (hr h) v) as [_ [F2 _]].
-  constructor; [exact Hm|simpl; apply ds_put_buf, Rf|].
-  intros t0 h0 ts0. simpl. rewrite F2, Eth, mget_mset. destruct (N.eqb_spec t0 t) as [->|Hn].
+  intros [Pm Pb Pt] Ht Hin Ev1 Eb1 Eth Hm Hts.
+  assert (Ev : forall k, view (set_thr s1 t (h, ts')) k = if N.eqb k (hr h) then Some v else view s k) by (intros k; apply Ev1).
+  constructor; [exact Hm|exact Eb1|].
+  intros t0 h0 ts0. simpl. rewrite Eth, mget_mset. destruct (N.eqb_spec t0 t) as [->|Hn].
   - intros E. inversion E; subst. split; [apply (Pt _ _ _ Ht)|].
     destruct ts0; auto; rewrite Ev, N.eqb_refl; [contradiction|congruence].
   - intros E. destruct (Pt _ _ _ E) as [A B]. split; [exact A|].
@@ -219,11 +229,49 @@ Proof.
     destruct ts0; auto; rewrite Ev; (destruct (N.eqb_spec (hr h0) (hr h)) as [Hr|_]; [exfalso; apply Hk; [reflexivity|exact Hr]|exact B]).
 Qed.
 
+Lemma PInv_write hf cf s s0 t h ts ts' v :
+  repaired cf -> PInv hf s -> mget t (s_thr s) = Some (h, ts) -> inside ts ->
+  s_disk s0 = s_disk s -> s_buf s0 = s_buf s -> s_thr s0 = s_thr s -> s_sess s0 = s_sess s ->
+  MInv (set_thr (ds_put cf s0 (hr h) v) t (h, ts')) ->
+  match ts' with TReq _ res => res = v | TStore _ _ => False | _ => True end ->
+  PInv hf (set_thr (ds_put cf s0 (hr h) v) t (h, ts')).
+Proof.
+  intros [Rp [Rf Rd]] Hp Ht Hin Ed Eb Eth Es Hm Hts.
+  destruct (ds_put_fields cf s0 (hr h) v) as [_ [F2 _]].
+  eapply PInv_write_gen; [exact Hp|exact Ht|exact Hin| | | |exact Hm|exact Hts].
+  - intros k. rewrite view_ds_put. unfold view. rewrite Ed, Eb. reflexivity.
+  - apply ds_put_buf, Rf.
+  - rewrite F2. exact Eth.
+Qed.
+
+(** a failing write (fix-c03-3: nothing stays in the buffer): either nothing was written at all, or — only the second flush
+    failed — everything was *)
+Lemma PInv_write_fail hf cf s s0 t h ts v o e c :
+  repaired cf -> PInv hf s -> mget t (s_thr s) = Some (h, ts) -> inside ts ->
+  s_disk s0 = s_disk s -> s_buf s0 = s_buf s -> s_thr s0 = s_thr s -> s_sess s0 = s_sess s ->
+  MInv (set_thr (ds_put_fail cf s0 (hr h) v o) t (h, TRel c (fault_verdict e))) ->
+  PInv hf (set_thr (ds_put_fail cf s0 (hr h) v o) t (h, TRel c (fault_verdict e))).
+Proof.
+  intros [Rp [Rf Rd]] Hp Ht Hin Ed Eb Eth Es Hm.
+  destruct (ds_put_fail_fields cf s0 (hr h) v o) as [_ [F2 _]].
+  assert (Hsec : o = SfSecond \/ o <> SfSecond) by (destruct o; auto; right; discriminate).
+  destruct Hsec as [->|Ho].
+  - eapply PInv_write_gen; [exact Hp|exact Ht|exact Hin| | | |exact Hm|exact I].
+    + intros k. rewrite view_ds_put_fail_second. unfold view. rewrite Ed, Eb. reflexivity.
+    + apply ds_put_fail_drop_buf, Rd.
+    + rewrite F2. exact Eth.
+  - eapply PInv_update; [exact Hp|exact Hm|exact Ht| | | | ].
+    + simpl. rewrite (ds_put_fail_drop_buf _ _ _ _ _ Rd). symmetry. apply (p_buf _ _ Hp).
+    + simpl. rewrite (ds_put_fail_drop_disk _ _ _ _ _ Rd Ho). exact Ed.
+    + simpl. rewrite F2, Eth. reflexivity.
+    + exact I.
+Qed.
+
 Lemma PInv_step wf hf cf s e :
   repaired cf -> ev_chain wf hf e -> PInv hf s -> PInv hf (fstep cf s e).
 Proof.
   intros Hr [_ He] Hp. pose proof (MInv_step cf s e (p_mutex _ _ Hp)) as Hm.
-  destruct Hr as [Rp Rf]. destruct e; simpl in *.
+  pose proof Hr as [Rp [Rf Rd]]. destruct e; simpl in *.
   - destruct (mget t (s_thr s)) eqn:Et; [exact Hp|].
     destruct Hp as [Pm Pb Pt]. constructor; [exact Hm|exact Pb|].
     intros t0 h0 ts0. simpl. rewrite mget_mset. destruct (N.eqb_spec t0 t) as [->|Hn].
@@ -239,7 +287,7 @@ Proof.
         unfold after_load. destruct (r_rem res); [exact I|exact Ev].
       * destruct (draw _ _ _ _); [|exact Hp]. rewrite Rp in *.
         eapply PInv_update; [exact Hp|exact Hm|exact Et|reflexivity..|exact Ev].
-    + eapply (PInv_write hf cf s s t h (TStore c res)); [split; assumption|exact Hp|exact Et|unfold inside; simpl; congruence|reflexivity..|exact Hm|].
+    + eapply (PInv_write hf cf s s t h (TStore c res)); [exact Hr|exact Hp|exact Et|unfold inside; simpl; congruence|reflexivity..|exact Hm|].
       unfold after_load. destruct (r_rem res); auto.
     + exact Hp.
     + eapply PInv_update; [exact Hp|exact Hm|exact Et|reflexivity..|exact I].
@@ -249,11 +297,21 @@ Proof.
     unfold step_resp in *. destruct (rs_slots r); [|destruct (Nat.ltb _ _)].
     + eapply PInv_update; [exact Hp|exact Hm|exact Et|reflexivity..|exact I].
     + eapply PInv_update; [exact Hp|exact Hm|exact Et|reflexivity..|exact I].
-    + eapply (PInv_write hf cf s (add_served s _) t h (TReq c res)); [split; assumption|exact Hp|exact Et|unfold inside; simpl; congruence|reflexivity..|exact Hm|exact I].
+    + eapply (PInv_write hf cf s (add_served s _) t h (TReq c res)); [exact Hr|exact Hp|exact Et|unfold inside; simpl; congruence|reflexivity..|exact Hm|exact I].
   - destruct (mget t (s_thr s)) as [[h ts]|] eqn:Et; [|exact Hp]. destruct ts; try exact Hp.
     eapply PInv_update; [exact Hp|exact Hm|exact Et|reflexivity..|exact I].
   - constructor; [exact Hm|reflexivity|simpl; intros; discriminate].
   - constructor; [exact Hm|reflexivity|simpl; intros; discriminate].
+  - destruct (mget t (s_thr s)) as [[h ts]|] eqn:Et; [|exact Hp]. destruct ts; try exact Hp.
+    destruct (buffered s (hr h)); [exact Hp|].
+    eapply PInv_update; [exact Hp|exact Hm|exact Et|reflexivity..|exact I].
+  - destruct (mget t (s_thr s)) as [[h ts]|] eqn:Et; [|exact Hp]. destruct ts; try exact Hp.
+    eapply (PInv_write_fail hf cf s s t h (TStore c res)); [exact Hr|exact Hp|exact Et|unfold inside; simpl; congruence|reflexivity..|exact Hm].
+  - destruct (mget t (s_thr s)) as [[h ts]|] eqn:Et; [|exact Hp]. destruct ts; try exact Hp.
+    unfold step_resp_fail in *. destruct (rs_slots r); [|destruct (Nat.ltb _ _)].
+    + eapply PInv_update; [exact Hp|exact Hm|exact Et|reflexivity..|exact I].
+    + eapply PInv_update; [exact Hp|exact Hm|exact Et|reflexivity..|exact I].
+    + eapply (PInv_write_fail hf cf s (add_served s _) t h (TReq c res)); [exact Hr|exact Hp|exact Et|unfold inside; simpl; congruence|reflexivity..|exact Hm].
 Qed.
 
 Lemma PInv_run wf hf cf es : repaired cf -> forall s, Forall (ev_chain wf hf) es -> PInv hf s -> PInv hf (frun cf s es).
@@ -285,11 +343,11 @@ Lemma pending_step wf hf cf s e r res :
   repaired cf -> ev_chain wf hf e -> PInv hf s ->
   view s r = Some res ->
   view (fstep cf s e) r = Some res \/
-  exists t resp h c, e = FResp t resp /\ mget t (s_thr s) = Some (h, TReq c res) /\ hr h = r /\
+  exists t resp h c, resp_of e = Some (t, resp) /\ mget t (s_thr s) = Some (h, TReq c res) /\ hr h = r /\
                      rs_slots resp <> [] /\ (length (rs_slots resp) <= length (r_rem res))%nat /\
                      view (fstep cf s e) r = Some (answered res (rs_slots resp)).
 Proof.
-  intros [Rp Rf] He Hp Hv. pose proof (p_buf _ _ Hp) as Hb.
+  intros [Rp [Rf Rd]] He Hp Hv. pose proof (p_buf _ _ Hp) as Hb.
   destruct e; simpl.
   - left. destruct (mget t (s_thr s)); exact Hv.
   - destruct (mget t (s_thr s)) as [[h ts]|] eqn:Et; [|left; exact Hv].
@@ -315,6 +373,28 @@ Proof.
   - left. destruct (mget t (s_thr s)) as [[h ts]|]; [|exact Hv]. destruct ts; exact Hv.
   - left. unfold view in *. simpl. rewrite Hb in Hv. exact Hv.
   - left. unfold view in *. simpl. rewrite mget_mflush. rewrite Hb in *. exact Hv.
+  - (* FLoadFail *) left. destruct (mget t (s_thr s)) as [[h ts]|]; [|exact Hv]. destruct ts; try exact Hv.
+    destruct (buffered s (hr h)); exact Hv.
+  - (* FStoreFail: the root of a call that still has to persist its draw has no result yet *)
+    left. destruct (mget t (s_thr s)) as [[h ts]|] eqn:Et; [|exact Hv]. destruct ts; try exact Hv.
+    destruct (p_thr _ _ Hp _ _ _ Et) as [_ Hn]. rewrite view_set_thr.
+    assert (Hsec : o = SfSecond \/ o <> SfSecond) by (destruct o; auto; right; discriminate).
+    destruct Hsec as [->|Ho].
+    + rewrite view_ds_put_fail_second. destruct (N.eqb_spec r (hr h)) as [->|_]; [congruence|exact Hv].
+    + rewrite view_ds_put_fail_nothing; auto.
+  - (* FRespFail *) destruct (mget t (s_thr s)) as [[h ts]|] eqn:Et; [|left; exact Hv].
+    destruct ts; try (left; exact Hv).
+    destruct (p_thr _ _ Hp _ _ _ Et) as [_ Hreq].
+    unfold step_resp_fail. destruct (rs_slots r0) as [|x sl'] eqn:Esl; [left; exact Hv|].
+    destruct (Nat.ltb _ _) eqn:El; [left; exact Hv|].
+    apply Nat.ltb_ge in El. rewrite view_set_thr.
+    assert (Hsec : o = SfSecond \/ o <> SfSecond) by (destruct o; auto; right; discriminate).
+    destruct Hsec as [->|Ho].
+    + rewrite view_ds_put_fail_second, view_add_served.
+      destruct (N.eqb_spec r (hr h)) as [->|_]; [|left; exact Hv].
+      right. exists t, r0, h, c. rewrite Hv in Hreq. inversion Hreq; subst res0.
+      rewrite Esl. repeat split; auto. discriminate.
+    + left. rewrite view_ds_put_fail_nothing; auto.
 Qed.
 
 (** how a stored result may evolve *)
@@ -390,14 +470,141 @@ Proof.
     + destruct (IH Hes _ _ Hp' Hv') as [res [A [B C]]]. exists res. split; [exact A|]. split.
       * eapply evolves_trans; [apply evolves_answered|exact B].
       * intros [Hc0 Hc]. eapply Permutation_trans; [apply C, Hc|].
-        subst e. simpl in Hc0. destruct (Hc0 _ _ _ Et) as [Hz|Hl]; [destruct (rs_slots resp); [congruence|discriminate]|].
+        unfold answer_in_contract in Hc0. rewrite Ee in Hc0. destruct (Hc0 _ _ _ Et) as [Hz|Hl]; [destruct (rs_slots resp); [congruence|discriminate]|].
         unfold answered. simpl. rewrite <- app_assoc. apply Permutation_app_head.
         eapply Permutation_trans; [apply split_resp_perm|]. rewrite Hl, firstn_all. apply Permutation_refl.
 Qed.
 
-(** * What the two repairs repaired: the code before them ([orig_cfg]) loses pending coordinates *)
+(** * Datastore faults: what a failed store can and cannot do (repaired code) *)
+
+Definition is_store_fault (e : fev) : Prop :=
+  match e with FStoreFail _ _ _ | FRespFail _ _ _ _ => True | _ => False end.
+
+Lemma ev_chain_wf wf hf es : Forall (ev_chain wf hf) es -> Forall (ev_wf wf) es.
+Proof. apply Forall_impl. intros e [H _]. exact H. Qed.
+
+(** a root without a result keeps having none through a failed store, unless the failing call is the one that persists its
+    own fresh draw and only the second flush failed (then exactly that draw is durable) *)
+Lemma fresh_step_fault hf cf s e r :
+  repaired cf -> PInv hf s -> is_store_fault e -> view s r = None ->
+  view (fstep cf s e) r = None \/
+  exists t o e0 h c res, e = FStoreFail t o e0 /\ mget t (s_thr s) = Some (h, TStore c res) /\ hr h = r /\
+                         view (fstep cf s e) r = Some res.
+Proof.
+  intros [Rp [Rf Rd]] Hp Hf Hv. pose proof (p_buf _ _ Hp) as Hb.
+  assert (Hsec : forall o, o = SfSecond \/ o <> SfSecond) by (intros o; destruct o; auto; right; discriminate).
+  destruct e; try contradiction; simpl.
+  - destruct (mget t (s_thr s)) as [[h ts]|] eqn:Et; [|left; exact Hv]. destruct ts; try (left; exact Hv).
+    rewrite view_set_thr. destruct (Hsec o) as [->|Ho].
+    + rewrite view_ds_put_fail_second. destruct (N.eqb_spec r (hr h)) as [->|_]; [|left; exact Hv].
+      right. exists t, SfSecond, e, h, c, res. repeat split; auto.
+    + left. rewrite view_ds_put_fail_nothing; auto.
+  - left. destruct (mget t (s_thr s)) as [[h ts]|] eqn:Et; [|exact Hv]. destruct ts; try exact Hv.
+    destruct (p_thr _ _ Hp _ _ _ Et) as [_ Hreq].
+    unfold step_resp_fail. destruct (rs_slots r0); [exact Hv|]. destruct (Nat.ltb _ _); [exact Hv|].
+    rewrite view_set_thr. destruct (Hsec o) as [->|Ho].
+    + rewrite view_ds_put_fail_second, view_add_served. destruct (N.eqb_spec r (hr h)) as [->|_]; [congruence|exact Hv].
+    + rewrite view_ds_put_fail_nothing; auto.
+Qed.
+
+(** store_fault_safe: one failed store ([FStoreFail]: the eager persist of a fresh draw; [FRespFail]: the persist after a
+    getter answer), anywhere in any history. For every root:
+    - a persisted result stays exactly as it is, or — the failing call had asked for exactly its remaining coordinates and
+      only the second flush failed — becomes [answered] by that call's answer (coordinates move to "available" only through
+      a non-empty slot at their own position, [answer_positional]); no coordinate is added to or removed from the set;
+    - a root without a result gets none, or gets exactly the draw the failing call was about to persist. *)
+Theorem store_fault_safe wf hf cf count es e r :
+  repaired cf -> Forall (ev_chain wf hf) (es ++ [e]) -> is_store_fault e ->
+  let s := frun cf (init count) es in
+  match view s r with
+  | Some res =>
+    view (fstep cf s e) r = Some res \/
+    exists t resp h c, resp_of e = Some (t, resp) /\ mget t (s_thr s) = Some (h, TReq c res) /\ hr h = r /\
+                       rs_slots resp <> [] /\ (length (rs_slots resp) <= length (r_rem res))%nat /\
+                       view (fstep cf s e) r = Some (answered res (rs_slots resp))
+  | None =>
+    view (fstep cf s e) r = None \/
+    exists t o e0 h c res, e = FStoreFail t o e0 /\ mget t (s_thr s) = Some (h, TStore c res) /\ hr h = r /\
+                           view (fstep cf s e) r = Some res
+  end.
+Proof.
+  intros Hr Hf Hsf s. apply Forall_app in Hf. destruct Hf as [Hf He]. inversion He; subst.
+  pose proof (PInv_run wf hf cf es Hr _ Hf (PInv_init hf count)) as Hp. fold s in Hp.
+  destruct (view s r) as [res|] eqn:Ev.
+  - eapply pending_step; eauto.
+  - eapply fresh_step_fault; eauto.
+Qed.
+
+(** the call that hit the failing store returns that error — never "available" *)
+Theorem store_fault_verdict cf s e t h c v :
+  is_store_fault e -> mget t (s_thr (fstep cf s e)) = Some (h, TRel c v) -> mget t (s_thr s) <> Some (h, TRel c v) -> v <> VOk.
+Proof.
+  intros Hf H' Hne Ev. subst v. destruct e; try contradiction; simpl in H'.
+  - destruct (mget t0 (s_thr s)) as [[h0 ts]|] eqn:E0; [|contradiction]. destruct ts; try contradiction.
+    simpl in H'. rewrite mget_mset, (proj1 (proj2 (ds_put_fail_fields _ _ _ _ _))) in H'. destruct (N.eqb t t0); [|contradiction].
+    inversion H'. eapply fault_verdict_not_ok; eauto.
+  - destruct (mget t0 (s_thr s)) as [[h0 ts]|] eqn:E0; [|contradiction]. destruct ts; try contradiction.
+    unfold step_resp_fail in H'.
+    destruct (rs_slots r); [|destruct (Nat.ltb _ _)]; simpl in H'; rewrite mget_mset in H';
+      rewrite ?(proj1 (proj2 (ds_put_fail_fields _ _ _ _ _))) in H'; simpl in H';
+      (destruct (N.eqb t t0); [|contradiction]); inversion H'.
+    eapply fault_verdict_not_ok; eauto.
+Qed.
+
+(** rerequest_exactly_pending: a result [res0] for root [r] is persisted (from the first draw on); ANY history follows —
+    failed loads, failed stores, failed / partial / cancelled answers, concurrent calls, crash, restart. Whenever a call for
+    [r] is then inside the getter, what it asked for ([r_rem res]) is durable, is a part of the pending coordinates of [res0],
+    nothing that was sampled before got lost or added from outside the set, and — the getter keeping its contract — the set
+    is the same and every coordinate of [res0]'s pending list that is NOT asked for again is recorded as sampled and was
+    handed back non-empty by the getter for this root. *)
+Theorem rerequest_exactly_pending wf hf cf count es1 es2 r res0 t h c res :
+  repaired cf -> 0 <= count -> Forall (ev_chain wf hf) (es1 ++ es2) ->
+  view (frun cf (init count) es1) r = Some res0 ->
+  let s := frun cf (init count) (es1 ++ es2) in
+  mget t (s_thr s) = Some (h, TReq c res) -> hr h = r ->
+  mget r (s_disk s) = Some res /\ evolves res0 res /\
+  (contract_run cf (frun cf (init count) es1) es2 ->
+   Permutation (r_avail res ++ r_rem res) (r_avail res0 ++ r_rem res0) /\
+   forall x, In x (r_rem res0) -> In x (r_rem res) \/ (In x (r_avail res) /\ exists b, In (r, x, b) (s_served s))).
+Proof.
+  intros Hr Hc Hf Hv s Ht Ehr.
+  destruct (pending_stable wf hf cf count es1 es2 r res0 Hr Hf Hv) as [res' [A [B C]]]. fold s in A.
+  destruct (requests_are_pending wf hf cf count (es1 ++ es2) t h c res Hr Hf Ht) as [V D]. fold s in V, D.
+  rewrite Ehr in V, D. rewrite V in A. inversion A; subst res'.
+  split; [exact D|]. split; [exact B|]. intros Hcr. specialize (C Hcr). split; [exact C|].
+  intros x Hx.
+  assert (Hin : In x (r_avail res ++ r_rem res)).
+  { eapply Permutation_in; [apply Permutation_sym, C|]. apply in_or_app. right. exact Hx. }
+  apply in_app_or in Hin. destruct Hin as [Hin|Hin]; [right|left; exact Hin].
+  split; [exact Hin|].
+  pose proof (SInv_run wf cf (es1 ++ es2) _ (ev_chain_wf _ _ _ Hf) (SInv_init wf count Hc)) as Hs. fold s in Hs.
+  destruct (view_good _ _ _ _ Hs V) as [_ [_ G]]. apply G, Hin.
+Qed.
+
+(** * What the repairs repaired: the code before them loses pending coordinates *)
 
 Definition hx : hdr := mkhdr 7 1 8 false true.
+
+(** before fix-c03-3 ([keepbuf_cfg]): the eager persist of the first draw fails before the write buffer is emptied (Batch()
+    of the datastore returns an I/O error): the call returns the error, but the draw stays in the write buffer, where the
+    retry finds it and asks the getter for it (the coordinates are out, and they are NOT durable); the getter hands back
+    nothing; the process dies without Close; the next call draws a different set. *)
+Example pending_stable_keepbuf_refuted :
+  exists es1 es2 h c1 c2 res1 res2,
+    mget 2%N (s_thr (frun keepbuf_cfg (init 2) es1)) = Some (h, TReq c1 res1) /\
+    mget (hr h) (s_disk (frun keepbuf_cfg (init 2) es1)) = None /\
+    mget 3%N (s_thr (frun keepbuf_cfg (init 2) (es1 ++ es2))) = Some (h, TReq c2 res2) /\
+    s_served (frun keepbuf_cfg (init 2) (es1 ++ es2)) = [] /\ r_rem res1 <> r_rem res2.
+Proof.
+  exists [FCall 1 hx; FStep 1 [] []; FStep 1 [] []; FStep 1 [1; 2; 3; 4] []; FStoreFail 1 SfEarly EOther; FStep 1 [] []; FStep 1 [] [];
+          FCall 2 hx; FStep 2 [] []; FStep 2 [] []; FStep 2 [] []],
+         [FResp 2 (mkresp [] EOther); FStep 2 [] []; FStep 2 [] []; FCrash 2;
+          FCall 3 hx; FStep 3 [] []; FStep 3 [] []; FStep 3 [5; 6; 7; 0] []; FStep 3 [] []],
+         hx, 1%N, 2%N, (mkres [] [(1, 2); (3, 4)]), (mkres [] [(5, 6); (7, 0)]).
+  vm_compute. repeat split; discriminate.
+Qed.
+
+(** * What the earlier two repairs repaired: the code before them ([orig_cfg]) loses pending coordinates *)
 
 (** partial answer, crash (no Close), fresh instance: the buffered result is gone, the retry draws new coordinates *)
 Example pending_stable_original_crash_refuted :
@@ -433,6 +640,34 @@ Example pending_stable_nonvacuous :
   mget 1%N (s_thr (frun fixed_cfg (init 4) (es1 ++ es2))) = Some (hx, TReq 1%N (mkres [(1, 2); (5, 6)] [(3, 4); (7, 0)])) /\
   Forall (ev_chain (fun _ => 8) (fun _ => 7%N)) (es1 ++ es2) /\ contract_run fixed_cfg (frun fixed_cfg (init 4) es1) es2.
 Proof. vm_compute. repeat split; repeat constructor; intros; try discriminate; try (right; congruence). Qed.
+
+(** a history with datastore faults on the repaired code: partial answer (2 of 4 pending); a retry whose load fails with a
+    cancelled context (returns context.Canceled, nothing changes); a retry that is served everything but whose persist
+    fails with an I/O error (returns the error; the two coordinates are NOT recorded as sampled); crash; the next call asks
+    for exactly the two pending coordinates of the first draw *)
+Definition es_faults1 : list fev :=
+  [FCall 1 hx; FStep 1 [] []; FStep 1 [] []; FStep 1 [1; 2; 3; 4; 5; 6; 7; 0] []; FStep 1 [] []; FResp 1 (mkresp [F; E; F; E] EDeadline);
+   FStep 1 [] []; FStep 1 [] []].
+Definition es_faults2 : list fev :=
+  [FCall 2 hx; FStep 2 [] []; FStep 2 [] []; FLoadFail 2 ECanceled; FStep 2 [] []; FStep 2 [] [];
+   FCall 3 hx; FStep 3 [] []; FStep 3 [] []; FStep 3 [] []; FRespFail 3 (mkresp [F; F] ENone) SfEarly EOther; FStep 3 [] []; FStep 3 [] [];
+   FCrash 4; FCall 4 hx; FStep 4 [] []; FStep 4 [] []; FStep 4 [9; 9; 9; 9] []].
+
+Example pending_stable_faults_nonvacuous :
+  let res0 := mkres [(1, 2); (5, 6)] [(3, 4); (7, 0)] in
+  view (frun fixed_cfg (init 4) es_faults1) 1%N = Some res0 /\
+  mget 2%N (s_thr (frun fixed_cfg (init 4) (es_faults1 ++ firstn 6 es_faults2))) = Some (hx, TDone VCanceled) /\
+  mget 3%N (s_thr (frun fixed_cfg (init 4) (es_faults1 ++ firstn 13 es_faults2))) = Some (hx, TDone VErr) /\
+  view (frun fixed_cfg (init 4) (es_faults1 ++ firstn 13 es_faults2)) 1%N = Some res0 /\
+  mget 4%N (s_thr (frun fixed_cfg (init 4) (es_faults1 ++ es_faults2))) = Some (hx, TReq 3%N res0) /\
+  repaired fixed_cfg /\
+  Forall (ev_chain (fun _ => 8) (fun _ => 7%N)) (es_faults1 ++ es_faults2) /\
+  contract_run fixed_cfg (frun fixed_cfg (init 4) es_faults1) es_faults2 /\
+  is_store_fault (nth 10 es_faults2 (FCrash 0)).
+Proof.
+  vm_compute. repeat split; try discriminate; try (repeat constructor; intros; try discriminate; fail);
+    intros ? ? ? Hx; inversion Hx; subst; right; reflexivity.
+Qed.
 
 (** * non-vacuity of the soundness and mutual-exclusion theorems *)
 Definition es_first : list fev :=
@@ -471,7 +706,7 @@ Corollary pending_step_run wf hf cf count es e r res :
   let s := frun cf (init count) es in
   view s r = Some res ->
   view (fstep cf s e) r = Some res \/
-  exists t resp h c, e = FResp t resp /\ mget t (s_thr s) = Some (h, TReq c res) /\ hr h = r /\
+  exists t resp h c, resp_of e = Some (t, resp) /\ mget t (s_thr s) = Some (h, TReq c res) /\ hr h = r /\
                      rs_slots resp <> [] /\ (length (rs_slots resp) <= length (r_rem res))%nat /\
                      view (fstep cf s e) r = Some (answered res (rs_slots resp)).
 Proof.
